@@ -58,7 +58,10 @@ Definition c20_api_reach : list reach_entry := [
     [("mp4", "decoders"); ("mp4", "decodersSR")];
   mkreach KRemoveBoxDecoder ["mp4.RemoveBoxDecoder"]
     []
-    [("mp4", "decoders"); ("mp4", "decodersSR")]
+    [("mp4", "decoders"); ("mp4", "decodersSR")];
+  mkreach KTouch ["mp4.FtypBox.AddCompatibleBrands"; "mp4.StypBox.AddCompatibleBrands"; "mp4.MdatBox.AddSampleData"]
+    []
+    []
 ].
 
 (* every EXPORTED function or method from which a change of a package-level variable is reachable *)
